@@ -221,6 +221,111 @@ func c05static(c *engine.Ctx, ctxs []gen.Ctx) {
 	}
 }
 
+// c05hostCases: failures of evaluations the host makes through the Go API while the interpreter is at rest
+// (SourceStream of a text that fails at run time / at compile time / at parse time; Apply with the wrong number of
+// arguments, of a function that fails, of a builtin that fails; LoadString+Run of a failing text).
+func c05hostCases(c *engine.Ctx, only string) {
+	type hostOp struct {
+		name string
+		run  func(tr *zy.Traced) error
+	}
+	apply := func(fname string, args ...int64) func(tr *zy.Traced) error {
+		return func(tr *zy.Traced) error {
+			obj, ok := tr.Env.FindObject(fname)
+			fn, isFn := obj.(*zygo.SexpFunction)
+			if !ok || !isFn {
+				return fmt.Errorf("harness: %s is not a function", fname)
+			}
+			var as []zygo.Sexp
+			for _, a := range args {
+				as = append(as, &zygo.SexpInt{Val: a})
+			}
+			_, err := tr.Env.Apply(fn, as)
+			return err
+		}
+	}
+	source := func(text string) func(tr *zy.Traced) error {
+		return func(tr *zy.Traced) error { return tr.Env.SourceStream(strings.NewReader(text + "\n")) }
+	}
+	loadrun := func(text string) func(tr *zy.Traced) error {
+		return func(tr *zy.Traced) error {
+			if err := tr.Env.LoadString(text + "\n"); err != nil {
+				return err
+			}
+			_, err := tr.Env.Run()
+			return err
+		}
+	}
+	ops := []hostOp{
+		{"source-runtime-failure", source(`(def loaded 1) (fail 0) (def never 1)`)},
+		{"source-runtime-failure-in-function", source(`(def loaded 1) (f 1 (fail 0))`)},
+		{"source-compile-failure", source(`(def loaded 1) (let)`)},
+		{"source-parse-failure", source(`(def loaded 1) (+ 1`)},
+		{"source-unbound", source(`(def loaded 1) (undefinedfn 3)`)},
+		{"apply-too-many-arguments", apply("f", 1, 2, 3)},
+		{"apply-too-few-arguments", apply("f", 1)},
+		{"apply-function-that-fails", apply("failing")},
+		{"apply-builtin-that-fails", apply("first", 1)},
+		{"loadrun-runtime-failure", loadrun(`(def loaded 1) (fail 0)`)},
+		{"loadrun-compile-failure", loadrun(`(def loaded 1) (let)`)},
+	}
+	for _, op := range ops {
+		w := "HOST|" + op.name
+		if !(only == "" && c.Mine() || only == w) {
+			continue
+		}
+		c.Begin(w)
+		tr := zy.NewTraced(false)
+		zygo.VerifSetStepBudget(500000)
+		tr.Run(layout(c02prelude(), 0))
+		tr.Run(`(defn failing [] (fail 0)) (def counter 0) (defn bump [] (set counter (+ counter 1)))`)
+		tr.Trace = nil
+		viol := func(clause, detail string) {
+			c.Violation(clause, "C05/host-"+clause+"/"+op.name, w, detail)
+		}
+		var err error
+		var pan string
+		func() {
+			defer func() {
+				if x := recover(); x != nil {
+					pan = fmt.Sprint(x)
+				}
+			}()
+			err = op.run(tr)
+		}()
+		if pan != "" {
+			viol("panic", pan)
+			tr.Env.Close()
+			continue
+		}
+		if err == nil {
+			viol("error-swallowed", "the failing host-level evaluation reported no error")
+		}
+		d := tr.Env.VerifDepths()
+		if d.Data != 0 || d.Scope != 1 || d.Addr != 0 || d.Loop != 0 {
+			viol("not-at-rest", fmt.Sprintf("data=%d scope=%d addr=%d loop=%d", d.Data, d.Scope, d.Addr, d.Loop))
+		}
+		for _, p := range [][2]string{{`(bump)`, "1"}, {`counter`, "1"}, {`(+ 1 2)`, "3"}, {`(f 10 3)`, "7"}, {`(bump)`, "2"}, {`(fact 3)`, "6"}, {``, "nil"},
+			{`(begin (def z 0) (for [(def i 0) (< i 5) (set i (+ i 1))] (cond (== i 2) (break) nil) (set z (+ z 1))) z)`, "2"}, {`counter`, "2"}} {
+			var r zy.Res
+			func() {
+				defer func() {
+					if x := recover(); x != nil {
+						r = zy.Res{Panic: fmt.Sprint(x)}
+					}
+				}()
+				r = tr.Run(p[0])
+			}()
+			if r.Short() != p[1] {
+				viol("followup", fmt.Sprintf("follow-up %q gives %s, want %s", p[0], r, p[1]))
+				break
+			}
+		}
+		tr.Env.Close()
+		c.Outcome("host|" + op.name)
+	}
+}
+
 func c05staticCase(c *engine.Ctx, w, text, key string) {
 	c.Begin(w)
 	tr := zy.NewTraced(false)
@@ -262,7 +367,7 @@ func init() {
 		Level: "fault_enumeration",
 		Rule: "fault points = calls of the host function h inside programs of the C02 grammar (+ lazy forcing, deep/tail recursion, loops in functions): default run counts N calls, then every k<=N x {returned error, Go panic in the builtin} is re-run on a fresh interpreter " +
 			"(thorough: + a second failing evaluation during the follow-ups); oracle = reference evaluator run with the same fault: result, trace, stacks at rest, and a 19-item follow-up battery; " +
-			"plus statically placed failures: 14 malformed forms in every hole of every context and 8 unparsable texts; distinct_nontrivial = distinct (shape, fault, trace, battery) tuples with k>0",
+			"plus statically placed failures: 14 malformed forms in every hole of every context, 23 unparsable texts (8 after complete forms, 15 left unfinished two or more brackets deep), and 11 failing evaluations made by the host through the Go API (SourceStream, Apply, LoadString+Run) followed by a 9-item battery; distinct_nontrivial = distinct (shape, fault, trace, battery) tuples with k>0",
 		Assumptions: []string{"R1 keeps the global effects completed before the fault, which is the specification of 'definitions completed before the failure intact'",
 			"for statically placed failures only follow-ups independent of partial execution are judged"},
 		Run: func(c *engine.Ctx) {
@@ -290,8 +395,16 @@ func init() {
 				return !c.Expired()
 			})
 			c05static(c, all)
+			c05hostCases(c, "")
 		},
 		Replay: func(c *engine.Ctx, w string) {
+			if strings.HasPrefix(w, "HOST|") {
+				c05hostCases(c, w)
+				for i := range c.Viol {
+					c.Viol[i].Key = "*"
+				}
+				return
+			}
 			if strings.HasPrefix(w, "S|") || strings.HasPrefix(w, "P|") {
 				c05staticCase(c, w, w[2:], "*")
 				for i := range c.Viol {
